@@ -4,6 +4,7 @@ import (
 	"fmt"
 	"os"
 	"sort"
+	"strings"
 	"time"
 
 	"github.com/akrylysov/pogreb/zzverif/explore"
@@ -310,7 +311,7 @@ func init() {
 		Prop:  "C04",
 		Level: "fault_enumeration",
 		Rule: "epoch chains: every distinct crash image of every word of length <= d1 (C03 alphabet; bases T (torn tails), S2, E) is (a) recovered, and every crash image of the recovering Open's own op log recovered again (same contents); " +
-			"(b) used as start state for every word of length <= d2 with every crash image inside each operation, reopened and compared with the cumulative acknowledged state +/- the in-flight op; after every recovery segment in-memory size == file length and every segment write is an append at EOF; thorough: a third epoch; distinct_nontrivial = distinct disk images recovered",
+			"(b) used as start state for every word of length <= d2 with every crash image inside each operation, reopened and compared with the cumulative acknowledged state +/- the in-flight op; after every recovery segment in-memory size == file length and every segment write is an append at EOF; thorough: a third epoch; distinct_nontrivial = distinct disk images recovered; (c) fault layer: for every operation of {Put(a),Put(b),Delete(a),Compact,Sync,Close} after every 0-/1-letter prefix a transient I/O error is injected at EACH mutating file-system call of the operation, Close of a written handle included (a data write writes nothing, or - second pass, segment padded so that the next record straddles a sector boundary - everything before the last 512-byte-aligned offset inside it); then the process dies / does two more acknowledged Puts and dies / closes and exits: the next Open must succeed and show the acknowledged state with the failed operation applied or not",
 		Assumptions:   []string{"process-crash model of the property", "d1/d2/d3 as listed in the notes; recovery results memoised per image content hash"},
 		QuickBudget:   100 * time.Second,
 		ThorBudget:    25 * time.Minute,
@@ -434,7 +435,7 @@ func c04FaultCase(c *explore.Ctx, base *explore.Base, bname, cfg string, pre []e
 		w := append(append([]explore.Op(nil), pre...), o)
 		return &explore.Violation{
 			Key:    fmt.Sprintf("fault %s base=%s cfg=%s word=%s fault@%d partial=%v", class, bname, cfg, explore.WordString(w), n, part),
-			What:   fmt.Sprintf("base %s/%s, [%s] with a transient I/O error injected at mutating file-system call #%d of %s (a data write hit by it writes %s): %s", bname, cfg, explore.WordString(w), n, o, map[bool]string{true: "half of its bytes and reports that count", false: "nothing"}[part], msg),
+			What:   fmt.Sprintf("base %s/%s, [%s] with a transient I/O error injected at mutating file-system call #%d of %s (a data write hit by it writes %s): %s", bname, cfg, explore.WordString(w), n, o, map[bool]string{true: "the bytes before the last 512-byte-aligned file offset inside it, if any, and reports that count", false: "nothing"}[part], msg),
 			Size:   len(w)*1000 + n,
 			Replay: map[string]interface{}{"kind": "fault04", "base": bname, "cfg": cfg, "word": opsJSON(w), "fault_at": n, "partial": part, "class": class, "observed": msg},
 		}
@@ -447,6 +448,37 @@ func c04FaultCase(c *explore.Ctx, base *explore.Base, bname, cfg string, pre []e
 			return true, mk("prefix", fmt.Sprintf("%s: %v", p, err))
 		}
 	}
+	if part && (base.Cfg.MaxSeg == 0 || base.Cfg.MaxSeg > 1<<16) {
+		// pad the current segment so that the next record straddles a 512-byte-aligned file offset (the only
+		// place where a sector-granular short write can leave a part of a record behind)
+		sizes := map[string]int{}
+		for _, nm := range s.FS.NamesIn("db") {
+			sizes[nm] = len(s.FS.Bytes("db/" + nm))
+		}
+		pad := func(k string, vlen int) bool {
+			v := strings.Repeat("p", vlen)
+			if err := s.DB.Put([]byte(k), []byte(v)); err != nil {
+				return false
+			}
+			s.Model[k] = v
+			return true
+		}
+		if !pad("pad-key-1", 1) {
+			return true, mk("prefix", "padding Put failed")
+		}
+		for _, nm := range s.FS.NamesIn("db") {
+			if n := len(s.FS.Bytes("db/" + nm)); strings.HasSuffix(nm, ".psg") && n != sizes[nm] {
+				const k2 = "pad-key-2"
+				vlen := ((504-n-10-len(k2))%512 + 512) % 512
+				if !pad(k2, vlen) {
+					return true, mk("prefix", "padding Put failed")
+				}
+				if got := len(s.FS.Bytes("db/"+nm)) % 512; got != 504 {
+					c.HarnessError("padding: segment %s ends at offset %d mod 512, want 504", nm, got)
+				}
+			}
+		}
+	}
 	m0 := s.Model.Clone()
 	m1 := s.Model.Clone()
 	switch o.Kind {
@@ -457,6 +489,17 @@ func c04FaultCase(c *explore.Ctx, base *explore.Base, bname, cfg string, pre []e
 	}
 	before := s.FS.Mutations()
 	s.FS.FailAt = before + n
+	trace := os.Getenv("VERIF_TRACE") != ""
+	if trace {
+		s.FS.Record = true
+		s.FS.Log = nil
+		defer func() {
+			for _, op := range s.FS.Log {
+				fmt.Fprintln(os.Stderr, "  fs:", op.String())
+			}
+			fmt.Fprintln(os.Stderr, s.FS.Describe())
+		}()
+	}
 	err := s.Apply(o)
 	s.FS.FailAt = 0
 	if s.FS.Mutations() < before+n {
